@@ -235,6 +235,16 @@ fn level2(ctx: &Ctx, report: &mut Report) -> (usize, usize) {
         ("12", vec!["\"12\"".into(), "String.from(12)".into(), "\"${12}\"".into(), "\"1\" + \"2\"".into(), "String.from(6 * 2)".into(), "\"${1}${2}\"".into()]),
         ("true", vec!["\"true\"".into(), "String.from(true)".into(), "\"${1 == 1}\"".into(), "\"tr\" + \"ue\"".into()]),
         ("nil", vec!["\"nil\"".into(), "String.from(nil)".into(), "\"${nil}\"".into()]),
+        // strings the interpreter itself makes: the messages of the errors it raises, as handlers see them
+        (
+            "Vec index out of bounds.",
+            vec!["\"Vec index out of bounds.\"".into(), "\"Vec index \" + \"out of bounds.\"".into(), "message_of(|| [][1])".into(), "message_of(|| [1, 2][7])".into(), "\"${message_of(|| [][0])}\"".into(), "message_of(|| [][1])[0..24]".into()],
+        ),
+        (
+            "Undefined variable 'never_defined'.",
+            vec!["\"Undefined variable 'never_defined'.\"".into(), "\"Undefined variable 'never\" + \"_defined'.\"".into(), "message_of(|| never_defined)".into(), "message_of(|| { never_defined = 1; })".into()],
+        ),
+        ("thrown", vec!["\"thrown\"".into(), "\"thr\" + \"own\"".into(), "message_of(|| { throw Error.new(\"thrown\"); })".into(), "Error.new(\"thrown\").context".into(), "message_of(|| { throw Error.new(\"thr\" + \"own\"); })".into()]),
     ];
     let natives = vec!["intern_global:hg_ab:ab".to_string(), "intern_global:hg_e:\u{e9}".to_string(), "intern_global:hg_empty:".to_string(), "intern_global:ab:selected by a host-created name".to_string()];
     let fillers: Vec<usize> = if thorough { (0..=40).collect() } else { vec![0, 1, 2, 3, 5, 6, 11, 12, 23, 24, 40] };
@@ -247,7 +257,7 @@ fn level2(ctx: &Ctx, report: &mut Report) -> (usize, usize) {
                 }
                 for &k in &fillers {
                     let src = format!(
-                        "var fill = [];\nfor i in 0..{k} {{ fill.push(\"f{i}_{j}_\" + String.from(i)); }}\nvar p1 = {p1};\nfor i in 0..{k} {{ fill.push(\"g{i}_{j}_\" + String.from(i)); }}\nvar p2 = {p2};\nprint(p1 == p2);\nprint(!(p1 != p2));\nvar m = {{p1: \"hit\"}};\nprint(m.get(p2));\nprint(m.has_key(p2));\nm.insert(p2, \"again\");\nprint(m.len());\nprint((p1, 1) == (p2, 1));\nprint({{(p1, 1): 5}}.get((p2, 1)));\nprint(p1 + \"!\" == p2 + \"!\");\nprint(p1 == p2 + \"x\");\nprint({{p1: 1}}.has_key(p2 + \"x\"));\nprint(p1.len() == p2.len());\n",
+                        "fn message_of(f) {{ try {{ f(); }} catch e {{ return e.context; }} return nil; }}\nvar fill = [];\nfor i in 0..{k} {{ fill.push(\"f{i}_{j}_\" + String.from(i)); }}\nvar p1 = {p1};\nfor i in 0..{k} {{ fill.push(\"g{i}_{j}_\" + String.from(i)); }}\nvar p2 = {p2};\nprint(p1 == p2);\nprint(!(p1 != p2));\nvar m = {{p1: \"hit\"}};\nprint(m.get(p2));\nprint(m.has_key(p2));\nm.insert(p2, \"again\");\nprint(m.len());\nprint((p1, 1) == (p2, 1));\nprint({{(p1, 1): 5}}.get((p2, 1)));\nprint(p1 + \"!\" == p2 + \"!\");\nprint(p1 == p2 + \"x\");\nprint({{p1: 1}}.has_key(p2 + \"x\"));\nprint(p1.len() == p2.len());\n",
                         k = k, i = i, j = j, p1 = p1, p2 = p2
                     );
                     programs.push((src, target.to_string()));
@@ -498,7 +508,7 @@ pub fn run(ctx: &Ctx) -> Report {
     report.cov("evaluations", json!(transitions + n2));
     report.cov("distinct_nontrivial", json!(states + n2));
     report.cov("exhaustive", json!(true));
-    report.cov("rule", json!("level 1: breadth-first search over every sequence of intern/probe operations on keys with designed hashes (collisions in the low 2/3/4 bits, an identical-full-hash pair, the empty string, fillers) up to the depth bound; a state is the real table's slot array; every transition is executed on the real table (fresh table, history replayed) and compared with a reference map; invariants checked in every state. level 2: every (sampled in quick: half of the) ordered pair of producers of each target string with k fresh strings created before and between, k over the filler set: equality, map selection, tuple-key selection, inequality of one-byte-different strings; a global defined under a host-created name. level 3: growth at every size - after n = 0..N filler keys of two families each of eight trigger keys (hashes chosen against the table's current capacity) is interned on a fresh copy of the real table, the whole slot array is compared with the reference and the invariants, and after an insertion that grew the table the key, the first, the middle and the last filler are looked up again. level 4: ladders of n strings produced twice by different producers through the language (compared and used as map keys at once and again at the end), collecting at every allocation for the short ones, and programs declaring and reading up to 1600/3200 global names."));
+    report.cov("rule", json!("level 1: breadth-first search over every sequence of intern/probe operations on keys with designed hashes (collisions in the low 2/3/4 bits, an identical-full-hash pair, the empty string, fillers) up to the depth bound; a state is the real table's slot array; every transition is executed on the real table (fresh table, history replayed) and compared with a reference map; invariants checked in every state. level 2: every (sampled in quick: half of the) ordered pair of producers of each target string with k fresh strings created before and between, k over the filler set: equality, map selection, tuple-key selection, inequality of one-byte-different strings; a global defined under a host-created name; the targets include strings the interpreter itself makes (messages of the errors it raises, as a handler sees them). level 3: growth at every size - after n = 0..N filler keys of two families each of eight trigger keys (hashes chosen against the table's current capacity) is interned on a fresh copy of the real table, the whole slot array is compared with the reference and the invariants, and after an insertion that grew the table the key, the first, the middle and the last filler are looked up again. level 4: ladders of n strings produced twice by different producers through the language (compared and used as map keys at once and again at the end), collecting at every allocation for the short ones, and programs declaring and reading up to 1600/3200 global names."));
     report.cov("bounds", json!({"level1_depth": if ctx.thorough() { 10 } else { 8 }, "level1_keys": pool(ctx.thorough()).len(), "level2_programs": n2}));
     report.cov("level1_max_capacity_reached", json!(max_cap));
     report.cov("level1_longest_probe_displacement", json!(max_chain));
